@@ -122,7 +122,8 @@ def exec (a : Arch) (progLen : Nat) (op : String) (body : Bits) (s : VmState) : 
     let i := field body r a.inBits
     match s.inValid[i]?, s.inputs[i]? with
     | some true, some v =>
-      if k < s.regs.length then
+      if s.inRecv[i]? = some true then some s      -- previous transfer not over (valid still high): wait
+      else if k < s.regs.length then
         some { next with regs := s.regs.set k v, inRecv := s.inRecv.set i true,
                          deferred := if i ∈ s.deferred then s.deferred else s.deferred ++ [i] }
       else none
@@ -133,7 +134,8 @@ def exec (a : Arch) (progLen : Nat) (op : String) (body : Bits) (s : VmState) : 
     let o := field body r a.outBits
     match s.regs[k]?, s.outRecv[o]? with
     | some v, some rc =>
-      if o < s.outputs.length then
+      if s.outValid[o]? = some false ∧ rc then some s   -- stale recv of the previous transfer: wait
+      else if o < s.outputs.length then
         let s1 := { s with outputs := s.outputs.set o v }
         some (if rc then { s1 with outValid := s.outValid.set o false, pc := s.pc + 1 }
               else { s1 with outValid := s.outValid.set o true })
